@@ -136,10 +136,58 @@ fn close_scenario(flavor: Flavor, scen: u64, seed: u64) -> (Findings, Value) {
     // the seventh scenario is directed: the closer is parked between its
     // clear() and its stop signal while another thread's insert is admitted, so that entries are resident
     // when close() returns
-    let scen = if scen % 7 == 6 && !flavor.gates_ok() { 0 } else { scen % 7 };
-    let name = ["close-idle", "close-after-history", "concurrent-closers", "operations-racing-close", "drop-without-close", "close-with-pending-buffer", "insert-admitted-inside-close"][scen as usize];
+    let scen = if scen % 8 >= 6 && !flavor.gates_ok() { 0 } else { scen % 8 };
+    let name = ["close-idle", "close-after-history", "concurrent-closers", "operations-racing-close", "drop-without-close", "close-with-pending-buffer", "insert-admitted-inside-close", "buffered-inserts-at-stop"][scen as usize];
+    // values accepted by insert() while the processor is parked, to be accounted for after close() (scenario 7)
+    let mut buffered_ids: Vec<u64> = Vec::new();
+    let mut drained_at_stop = 0u64;
     phase("ops");
     match scen {
+        7 => {
+            // Directed: the closer is parked between its clear() and its stop signal, the processor is parked
+            // holding one item, further inserts are accepted into the buffer; then the closer goes on (closed
+            // flag, stop signal) and the processor is released. Whatever it has not handled when it takes the
+            // stop arm is drained there. Every send precedes the stop signal, so every accepted value must
+            // end resident or with exactly one callback (C08: only resident values may be dropped silently).
+            val::log_enable(true);
+            let closer_gate = sched::Gate::new();
+            sched::arm_gate_for_role("close:after_clear", 9, closer_gate.clone());
+            let h = d.clone_handle();
+            let closer = std::thread::Builder::new().name("closer".into()).spawn(move || {
+                sched::set_role(9);
+                h.close()
+            }).unwrap();
+            phase("gate");
+            if closer_gate.wait_arrival(Duration::from_secs(5)) {
+                let proc_gate = sched::Gate::new();
+                sched::arm_gate_for_role("proc:insert_arm", 0, proc_gate.clone());
+                ids += 1;
+                let _ = d.try_insert(100, Tracked::new(ids, 100), 1, Duration::ZERO);
+                if proc_gate.wait_arrival(Duration::from_secs(5)) {
+                    for k in 101..101 + rng.range(2, 6) {
+                        ids += 1;
+                        if d.try_insert(k, Tracked::new(ids, k), 1, Duration::ZERO) == Ok(true) {
+                            buffered_ids.push(ids);
+                        }
+                    }
+                }
+                closer_gate.open();
+                // let the closer set the closed flag and offer the stop signal before the processor goes on
+                std::thread::sleep(Duration::from_millis(3));
+                proc_gate.open();
+            }
+            closer_gate.open();
+            sched::disarm_all();
+            phase("close");
+            match closer.join() {
+                Ok(Err(e)) => f.add("C12", "close/error", format!("{name}: close() returned Err({e})")),
+                Err(_) => f.add("C12", "close/panicked", format!("{name}: close() panicked")),
+                _ => {}
+            }
+            // close() does not wait for the processor: what it still had in hand when it was released is
+            // applied before it takes the stop signal; judge only once it has gone
+            let _ = workers_gone(flavor, Duration::from_secs(20));
+        }
         6 => {
             warm(d.as_ref(), &mut rng, &mut ids, 20);
             let gate = sched::Gate::new();
@@ -254,11 +302,15 @@ fn close_scenario(flavor: Flavor, scen: u64, seed: u64) -> (Findings, Value) {
     }
     phase("close");
     let mut resident_after_close = 0u64;
+    let mut resident_tags_after_close: Vec<u64> = Vec::new();
     if scen == 6 {
         resident_after_close = d.snapshot().store.len() as u64;
     }
+    if scen == 7 {
+        resident_tags_after_close = d.snapshot().store.iter().map(|e| e.tag).collect();
+    }
     if scen != 4 {
-        if scen != 2 && scen != 3 && scen != 6 {
+        if scen != 2 && scen != 3 && scen != 6 && scen != 7 {
             if let Err(e) = d.close() {
                 f.add("C12", "close/error", format!("{name}: close() returned Err({e})"));
             }
@@ -297,11 +349,28 @@ fn close_scenario(flavor: Flavor, scen: u64, seed: u64) -> (Findings, Value) {
             }
         }
     }
+    if scen == 7 {
+        let log = val::take_log();
+        val::log_enable(false);
+        for id in buffered_ids.iter() {
+            let cbs = log.iter().filter(|e| matches!(e.kind, val::EvKind::Cb { id: i, .. } if i == *id)).count();
+            let resident = resident_tags_after_close.contains(id);
+            if cbs == 1 && !resident {
+                drained_at_stop += 1;
+            }
+            if cbs > 1 || (cbs == 1 && resident) {
+                f.add("C08", "close/buffered-value-two-exits", format!("{name}: value #{id:x} accepted into the buffer before the stop signal: {cbs} callbacks, resident after close: {resident}"));
+            }
+            if cbs == 0 && !resident {
+                f.add("C08", "close/buffered-value-lost-without-callback", format!("{name}: value #{id:x} was accepted by insert() (true) into the buffer before close() sent its stop signal; after close() it is neither resident nor has it been handed to any callback"));
+            }
+        }
+    }
     let c = counters::snapshot();
     if c.WORKERS_PANICKED > 0 {
         f.add("C12", "workers/panicked", format!("{name}: {} workers ended by panic", c.WORKERS_PANICKED));
     }
-    (f, json!({"scenario": name, "flavor": flavor.name(), "config": format!("{cfg:?}"), "seed": seed, "resident_after_close": resident_after_close}))
+    (f, json!({"scenario": name, "flavor": flavor.name(), "config": format!("{cfg:?}"), "seed": seed, "resident_after_close": resident_after_close, "buffered_accepted": buffered_ids.len(), "drained_at_stop": drained_at_stop}))
 }
 
 // =============================================================================================
@@ -626,7 +695,7 @@ fn run_scenarios(ctx: &Ctx, rng: Rng, rep: &mut Report, kind: &str, count: u64, 
         }
         let mut r = rng.derive(i);
         let seed = r.next() >> 20;
-        let flavor = flavors[(i / if kind == "close" { 7 } else { 6 } % flavors.len() as u64) as usize];
+        let flavor = flavors[(i / if kind == "close" { 8 } else { 6 } % flavors.len() as u64) as usize];
         let flavor = if kind == "grid" { flavors[(i % flavors.len() as u64) as usize] } else { flavor };
         let (k2, g2) = (kind.to_string(), grid.get(i as usize).cloned());
         let sup = supervised(kind, watchdog, move || match k2.as_str() {
@@ -642,6 +711,12 @@ fn run_scenarios(ctx: &Ctx, rng: Rng, rep: &mut Report, kind: &str, count: u64, 
                 rep.count(&format!("lc_{kind}_{}", flavor.name()));
                 if let Some(n) = desc.get("scenario").and_then(|s| s.as_str()) {
                     rep.count(&format!("lc_scenario_{n}"));
+                }
+                if let Some(n) = desc.get("buffered_accepted").and_then(|s| s.as_u64()) {
+                    rep.add("lc_values_buffered_before_the_stop_signal", n);
+                }
+                if let Some(n) = desc.get("drained_at_stop").and_then(|s| s.as_u64()) {
+                    rep.add("lc_buffered_values_handed_to_a_callback_at_stop", n);
                 }
                 if let Some(n) = desc.get("resident_after_close").and_then(|s| s.as_u64()) {
                     rep.add("lc_entries_resident_when_close_returned", n);
